@@ -57,7 +57,7 @@ class Recorder:
 
     def sample(self, obj, every=1):
         if len(self.samples) < MAX_SAMPLES:
-            self.samples.append(canon.brief(obj))
+            self.samples.append(canon.brief(obj, 900))
 
     def note(self, text):
         if len(self.notes) < 20 and text not in self.notes:
